@@ -85,7 +85,7 @@ def set_aside(out1, out2, subs):
     verbatim in out1 the region is set aside (the sentinel stays); where the renderer wrote it in another form (alt text
     of an image: escaped) that text stays in the stream and is lexed like any other output.
     """
-    parts = re.split(r'(RAWx\d+x)', out2)
+    parts = re.split(r'((?:RAWx\d+x)+)', out2)          # runs of adjacent sentinels are one region
     pos, res = 0, []
     for i, part in enumerate(parts):
         if i % 2 == 0:
@@ -94,9 +94,10 @@ def set_aside(out1, out2, subs):
             pos += len(part)
             res.append(part)
         else:
-            raw = subs.get(part)
-            if raw is None:
+            keys = re.findall(r'RAWx\d+x', part)
+            if any(k not in subs for k in keys):
                 return out1, 'no'
+            raw = ''.join(subs[k] for k in keys)
             nxt = parts[i + 1] if i + 1 < len(parts) else ''
             if out1.startswith(raw, pos) and out1.startswith(nxt, pos + len(raw)):
                 pos += len(raw)
